@@ -417,6 +417,7 @@ namespace bxdecay0 {
     if (_decay_category_ == DECAY_CATEGORY_DBD) {
       if (_pimpl_->use_dbd_ga) {
         _pimpl_->dbd_ga_process.shoot(prng_, event_);
+        event_.set_generator(_decay_isotope_); // as for every other mode: the label is the requested nuclide
       } else {
         bxdecay0::genbbsub(prng_,
                            event_,
